@@ -107,6 +107,11 @@ func (pm *PromptMessage) UnmarshalJSON(data []byte) error {
 	if err := json.Unmarshal(data, &temp); err != nil {
 		return fmt.Errorf("failed to unmarshal prompt message structure: %w", err)
 	}
+	if temp == nil {
+		// JSON null (for instance a null element of "messages"): json.Unmarshal has set the
+		// pointer to nil and there is nothing to decode.
+		return nil
+	}
 
 	if len(temp.Content) > 0 {
 		// Check for JSON null value first
